@@ -286,12 +286,15 @@ def build(d):
     if mode != 'default':
         surf = {}
         ncol = geo.num_columns
-        for i, col in enumerate(geo.columnlist):
+        # columns visited in a geometric order: refine() numbers its new columns in an order that differs from run to run
+        canon = sorted(range(ncol), key=lambda j: (round(float(geo.columnlist[j].centre[0]), 6), round(float(geo.columnlist[j].centre[1]), 6)))
+        for i in canon:
+            col = geo.columnlist[i]
             if mode == 'lattice' or (mode == 'lattice-some' and rnd.random() < 0.3):
                 s, kind = lattice_surface(bottoms, rnd)
             elif mode == 'all-above':
                 s, kind = bottoms[0] + rnd.uniform(0.01, 3.) * (bottoms[0] - bottoms[1]), 'above'
-            elif mode == 'one-low' and i == (d['seed'] % ncol):
+            elif mode == 'one-low' and i == canon[d['seed'] % ncol]:
                 s, kind = bottoms[-1] + 0.3 * (bottoms[-2] - bottoms[-1]), 'deep'
             elif mode == 'all-mid-top':
                 s, kind = bottoms[1] + rnd.uniform(0.05, 0.95) * (bottoms[0] - bottoms[1]), 'mid'
@@ -439,7 +442,7 @@ def run_contracts(geo, bm, R):
                 if oc['dircos'] is not None:
                     R.evals['vconn_dircos'] += 1
                     if not close(float(con.dircos), oc['dircos'], 1e-12):
-                        R.fail('vconn-dircos' + ('-tilted' if R.desc.get('tilt') else ''), item,
+                        R.fail('vconn-dircos' + ('-tilted' if R.desc.get('tilt') and any(R.desc['tilt']) else ''), item,
                                'gravity cosine %r, expected %r' % (con.dircos, oc['dircos']), {})
                 if oc['kind'] == 'v':
                     R.evals['vconn_dist_sum'] += 1
@@ -472,7 +475,7 @@ def run_contracts(geo, bm, R):
                         # untilted: 0 between equal elevations, non-zero beside a truncated surface block
                         ok = ok and ((float(con.dircos) == 0.0) == (oc['dz'] == 0.0))
                     if not ok:
-                        R.fail('hconn-dircos' + ('-tilted' if R.desc.get('tilt') else ''), item,
+                        R.fail('hconn-dircos' + ('-tilted' if R.desc.get('tilt') and any(R.desc['tilt']) else ''), item,
                                'gravity cosine %r, expected %r (centre elevation difference %r)' % (con.dircos, oc['dircos'], oc['dz']), {})
                 if oc['direction'] is not None:
                     R.evals['hconn_direction'] += 1
